@@ -1,5 +1,6 @@
-(* Proofs_C11c.v -- C11: exclusion and coherence along clean runs of
-   well-formed programs (no With after Commit). *)
+(* Proofs_C11c.v -- C11: exclusion and coherence of the REPAIRED manager
+   (safe = true), for well-formed programs (no With after Commit), along every
+   schedule -- Release / eviction / pruning at any moment included. *)
 From Coq Require Import List Arith Bool ZArith Lia PeanoNat.
 From Semadb Require Import Model_C11 Proofs_C11 Proofs_C11b.
 Import ListNotations.
@@ -12,12 +13,12 @@ Record InvW (st : state) : Prop := {
 Lemma wf_tl : forall p, wf_prog p -> wf_prog (tl p).
 Proof. destruct p as [|[n ro oc|fl] r]; simpl; auto. intros ->. exact I. Qed.
 
-Lemma step_W : forall fixed limit st t st', Inv0 st -> InvW st -> step fixed limit st t = Some st' -> InvW st'.
+Lemma step_W : forall fixed safe limit st t st', Inv0 st -> InvW st -> step fixed safe limit st t = Some st' -> InvW st'.
 Proof.
-  intros fixed limit st t st' I W H. step_field I H.
+  intros fixed safe limit st t st' I W H. step_field I H.
   all: try match goal with
-       | D : done (txs ?st ?t) = false |- context [commit_all ?bad ?st _] =>
-           destruct (commit_facts st t bad I D) as (C1 & C2 & Dec & Ct & Cm & Cn)
+       | D : done (txs ?st ?t) = false |- context [commit_all ?sf ?bad ?st _] =>
+           destruct (commit_facts st t sf bad I D) as (C1 & C2 & Dec & Ct & Cm & Cn)
        end.
   all: constructor; simpl; try rewrite Ct; intros t'; upd_cases; simpl; try apply (i_wf _ W); try apply (i_dn _ W).
   all: try (apply wf_tl; apply (i_wf _ W)).
@@ -37,50 +38,52 @@ Proof.
   rewrite (i_dn _ W t Hd) in Hp. discriminate.
 Qed.
 
-Record InvC (limit : Z) (st : state) : Prop := {
+(* the two facts exclusion rests on *)
+Record InvS (st : state) : Prop := {
   i_J : forall t w c, use_of (ph (txs st t)) = Some (w, c) -> c_sh c = true ->
           c_rl c = Some (c_e c) \/
           (e_writer (elems st (c_e c)) = Some t /\ e_wheld (elems st (c_e c)) = true);
-  i_P1 : forall t w e, ph (txs st t) = PLock w e ->
-          failed (txs st t) = false /\
-          (forall e', lookup (w_n w) (written (txs st t)) = Some e' -> e' = e);
   i_P2 : forall t w e rl, ph (txs st t) = PScrap w e rl -> rl = None ->
-          lookup (w_n w) (written (txs st t)) = Some e;
-  i_P3 : forall t w e, (ph (txs st t) = PLock w e /\ w_ro w = false) \/ ph (txs st t) = PWait w e ->
-          e_scrapped (elems st e) = true \/ lookup (w_n w) (mmap st) = Some e;
-  i_I3 : (limit =? 0)%Z = false -> forall t n e, lookup n (written (txs st t)) = Some e ->
-          done (txs st t) = false -> failed (txs st t) = false ->
-          e_scrapped (elems st e) = true \/ lookup n (mmap st) = Some e;
-  i_I4 : forall t n e, lookup n (written (txs st t)) = Some e ->
-          done (txs st t) = false -> failed (txs st t) = false -> e_scrapped (elems st e) = true ->
-          exists w rl, ph (txs st t) = PScrap w e rl /\ w_ro w = false;
-  i_Z : (limit =? 0)%Z = true -> mmap st = [];
-  i_MM : forall t w, ph (txs st t) = PCreate w -> lookup (w_n w) (mmap st) = None
+          lookup (w_n w) (written (txs st t)) = Some e
 }.
 
 (* the heart of exclusion: whoever uses an element that t write-holds is t *)
-Lemma excl_core : forall limit st t t' w c, Inv0 st -> InvC limit st ->
+Lemma excl_core : forall st t t' w c, Inv0 st -> InvS st ->
   e_writer (elems st (c_e c)) = Some t -> e_wheld (elems st (c_e c)) = true ->
   use_of (ph (txs st t')) = Some (w, c) -> t' = t.
 Proof.
-  intros limit st t t' w c I C Hw Hh Hu.
-  destruct (i_a3 _ I _ _ _ Hu) as (_ & _ & Ho).
+  intros st t t' w c I C Hw Hh Hu.
+  destruct (i_a3 _ I _ _ _ Hu) as (_ & _ & _ & Ho).
   destruct (c_sh c) eqn:Hs.
-  - destruct (i_J _ _ C _ _ _ Hu Hs) as [Hr|[Hw' _]]; [|congruence].
+  - destruct (i_J _ C _ _ _ Hu Hs) as [Hr|[Hw' _]]; [|congruence].
     assert (Hrl : rl_of (ph (txs st t')) = Some (c_e c)).
     { destruct (ph (txs st t')); simpl in Hu; try discriminate Hu; injection Hu as <- <-; exact Hr. }
     destruct (i_b2 _ I _ _ Hrl) as (Hin & _). destruct (i_c3 _ I _ Hh) as (He & _). rewrite He in Hin. destruct Hin.
-  - destruct (i_d1 _ I _ _ Ho); congruence.
+  - destruct (i_d1 _ I _ _ (Ho eq_refl)); congruence.
 Qed.
 
 Ltac commit_setup I :=
   try match goal with
-       | D : done (txs ?st ?t) = false |- context [commit_all ?bad ?st _] =>
-           destruct (commit_facts st t bad I D) as (C1 & C2 & Dec & Ct & Cm & Cn)
+       | D : done (txs ?st ?t) = false |- context [commit_all ?sf ?bad ?st _] =>
+           destruct (commit_facts st t sf bad I D) as (C1 & C2 & Dec & Ct & Cm & Cn)
        end.
 
-Lemma step_J : forall fixed limit st s st', Inv0 st -> InvW st -> InvC limit st ->
-  step fixed limit st s = Some st' ->
+Lemma step_P2 : forall fixed limit st s st', Inv0 st -> InvW st -> InvS st ->
+  step fixed true limit st s = Some st' ->
+  forall t w e rl, ph (txs st' t) = PScrap w e rl -> rl = None ->
+          lookup (w_n w) (written (txs st' t)) = Some e.
+Proof.
+  intros fixed limit st s st' I W C H. step_field I H. all: commit_setup I.
+  all: simpl; try rewrite Ct; intros tq wq eq rlq Hu Hn; upd_cases; simpl in Hu; try discriminate Hu.
+  all: try (injection Hu as Hu1 Hu2 Hu3; subst; simpl in * ).
+  all: try (apply (i_P2 _ C _ _ _ _ Hu Hn)).
+  all: try congruence.
+  all: try (rewrite lookup_set_key, Nat.eqb_refl; reflexivity).
+  all: try assumption.
+Qed.
+
+Lemma step_J : forall fixed limit st s st', Inv0 st -> InvW st -> InvS st ->
+  step fixed true limit st s = Some st' ->
   forall t w c, use_of (ph (txs st' t)) = Some (w, c) -> c_sh c = true ->
           c_rl c = Some (c_e c) \/
           (e_writer (elems st' (c_e c)) = Some t /\ e_wheld (elems st' (c_e c)) = true).
@@ -88,321 +91,86 @@ Proof.
   intros fixed limit st s st' I W C H. step_field I H. all: commit_setup I.
   all: simpl; try rewrite Ct; intros tq wq cq Hu Hs; upd_cases; simpl in Hu; try discriminate Hu.
   all: try (injection Hu as Hu1 Hu2; subst; simpl in * ).
-  all: try (destruct (i_J _ _ C _ _ _ Hu Hs) as [A|[A B]]; [left; exact A|]).
+  all: try (destruct (i_J _ C _ _ _ Hu Hs) as [A|[A B]]; [left; exact A|]).
   all: try discriminate.
   all: try (destruct (i_a3 _ I _ _ _ Hu) as (Ha3 & _)).
-  all: try match goal with |- context [commit_all _ _ _] =>
-         destruct (Dec (c_e cq)) as [Dd|Dd]; [destruct (C1 _ Dd) as (X & _); congruence|rewrite (C2 _ Dd); auto] end.
+  all: try match goal with |- context [commit_all _ _ _ _] =>
+         destruct (Dec (c_e cq)) as [Dd|Dd]; [destruct (C1 _ Dd) as (X & _); congruence|destruct (C2 _ Dd) as (Cw & Ch); rewrite Cw, Ch; auto] end.
   all: simpl; upd_cases; simpl; auto; try congruence.
   all: try (exfalso; lia).
   all: try (right; split; congruence).
-  all: try (pose proof (i_J _ _ C s) as FJ; rewrite E in FJ; simpl in FJ; specialize (FJ _ _ eq_refl); solve [auto]).
+  all: try (pose proof (i_J _ C s) as FJ; rewrite E in FJ; simpl in FJ; specialize (FJ _ _ eq_refl); solve [auto]).
   destruct H0 as [?|[Hn _]]; [auto|right].
   apply (i_c4 _ I s (w_n wq) e).
-  - apply (i_P2 _ _ C _ _ _ _ E Hn).
+  - apply (i_P2 _ C _ _ _ _ E Hn).
   - apply busy_not_done; auto. rewrite E. discriminate.
 Qed.
 
-Lemma P1_enter : forall limit st s n ro oc l e, Inv0 st -> InvW st -> InvC limit st ->
-  ph (txs st s) = PIdle -> prog (txs st s) = OWith n ro oc :: l -> failed (txs st s) = false ->
-  lookup n (mmap st) = Some e -> forall e', lookup n (written (txs st s)) = Some e' -> e' = e.
-Proof.
-  intros limit st s n ro oc l e I W C Hp Hpr Hf Hl e' Hw.
-  pose proof (idle_with_not_done _ _ _ _ _ _ W Hpr) as Hd.
-  destruct (limit =? 0)%Z eqn:Hz.
-  - rewrite (i_Z _ _ C Hz) in Hl. discriminate.
-  - destruct (i_I3 _ _ C Hz _ _ _ Hw Hd Hf) as [Hs|Hm]; [|congruence].
-    destruct (i_I4 _ _ C _ _ _ Hw Hd Hf Hs) as (w & rl & Hq & _). congruence.
-Qed.
-
-Lemma step_P1 : forall fixed limit st s st', Inv0 st -> InvW st -> InvC limit st ->
-  step fixed limit st s = Some st' ->
-  forall t w e, ph (txs st' t) = PLock w e ->
-          failed (txs st' t) = false /\
-          (forall e', lookup (w_n w) (written (txs st' t)) = Some e' -> e' = e).
-Proof.
-  intros fixed limit st s st' I W C H. step_field I H. all: commit_setup I.
-  all: simpl; try rewrite Ct; intros tq wq eq Hu; upd_cases; simpl in Hu; try discriminate Hu.
-  all: try (injection Hu as Hu1 Hu2; subst; simpl in * ).
-  all: try (apply (i_P1 _ _ C _ _ _ Hu)).
-  all: try congruence.
-  all: try (split; [assumption|eapply P1_enter; eauto]).
-Qed.
-
-Lemma step_P2 : forall fixed limit st s st', Inv0 st -> InvW st -> InvC limit st ->
-  step fixed limit st s = Some st' ->
-  forall t w e rl, ph (txs st' t) = PScrap w e rl -> rl = None ->
-          lookup (w_n w) (written (txs st' t)) = Some e.
-Proof.
-  intros fixed limit st s st' I W C H. step_field I H. all: commit_setup I.
-  all: simpl; try rewrite Ct; intros tq wq eq rlq Hu Hn; upd_cases; simpl in Hu; try discriminate Hu.
-  all: try (injection Hu as Hu1 Hu2 Hu3; subst; simpl in * ).
-  all: try (apply (i_P2 _ _ C _ _ _ _ Hu Hn)).
-  all: try congruence.
-  all: try (rewrite lookup_set_key, Nat.eqb_refl; reflexivity).
-  all: match goal with Hk : has_key _ _ = true |- _ =>
-         apply has_key_lookup in Hk; destruct Hk as [e1 Hk];
-         destruct (i_P1 _ _ C _ _ _ E) as (_ & X); rewrite (X _ Hk) in Hk; exact Hk end.
-Qed.
-
-Lemma step_other_tx : forall fixed limit st s st' tq, step fixed limit st s = Some st' -> tq <> s ->
-  txs st' tq = txs st tq.
-Proof.
-  intros fixed limit st s st' tq H Hne. break_step H.
-  all: simpl; try (destruct (commit_all_frame (failed (txs st s) || fail) (p :: l0) st) as (_ & _ & _ & Ft); rewrite Ft).
-  all: now rewrite upd_neq.
-Qed.
-
-(* how a transaction gets into the phases in which it is about to lock / waits for a lock *)
-Lemma enter_lock_phase : forall fixed limit st s st' wq eq, Inv0 st -> step fixed limit st s = Some st' ->
-  ((ph (txs st' s) = PLock wq eq /\ w_ro wq = false) \/ ph (txs st' s) = PWait wq eq) ->
-  (ph (txs st s) = PIdle /\ lookup (w_n wq) (mmap st') = Some eq) \/
-  (ph (txs st s) = PLock wq eq /\ w_ro wq = false).
-Proof.
-  intros fixed limit st s st' wq eq I H Hu. step_field I H. all: commit_setup I.
-  all: simpl in Hu; try rewrite Ct in Hu; rewrite upd_eq in Hu; simpl in Hu.
-  all: destruct Hu as [[Hu Hr]|Hu]; try discriminate Hu.
-  all: try (injection Hu as Hu1 Hu2; subst).
-  all: simpl; auto.
-Qed.
-
-Lemma step_P3 : forall fixed limit st s st', Inv0 st -> InvW st -> InvC limit st ->
-  step fixed limit st s = Some st' -> keeps st st' ->
-  forall t w e, (ph (txs st' t) = PLock w e /\ w_ro w = false) \/ ph (txs st' t) = PWait w e ->
-          e_scrapped (elems st' e) = true \/ lookup (w_n w) (mmap st') = Some e.
-Proof.
-  intros fixed limit st s st' I W C H Kp tq wq eq Hu.
-  assert (Hold : (ph (txs st tq) = PLock wq eq /\ w_ro wq = false) \/ ph (txs st tq) = PWait wq eq ->
-                 e_scrapped (elems st' eq) = true \/ lookup (w_n wq) (mmap st') = Some eq).
-  { intros Hq. assert (Hpr : protected st eq).
-    { destruct Hq as [[Hq Hr]|Hq]; [right; eauto|left]. destruct (i_c1 _ I _ _ _ Hq) as (X & _). congruence. }
-    destruct (i_P3 _ _ C _ _ _ Hq) as [Hs|Hl]; [left; eapply step_scrapped_mono; eauto|]. apply (Kp _ _ Hl Hpr). }
-  destruct (Nat.eq_dec tq s) as [->|Hne].
-  - destruct (enter_lock_phase _ _ _ _ _ _ _ I H Hu) as [[_ Hl]|Hq]; auto.
-  - rewrite (step_other_tx _ _ _ _ _ _ H Hne) in Hu. auto.
-Qed.
-
-Lemma flags_mono : forall fixed limit st s st' t, step fixed limit st s = Some st' ->
-  (done (txs st' t) = false -> done (txs st t) = false) /\
-  (failed (txs st' t) = false -> failed (txs st t) = false).
-Proof.
-  intros fixed limit st s st' t H. destruct (Nat.eq_dec t s) as [->|Hne].
-  - break_step H.
-    all: simpl; try (destruct (commit_all_frame (failed (txs st s) || fail) (p :: l0) st) as (_ & _ & _ & Ft); rewrite Ft).
-    all: rewrite upd_eq; simpl; auto; split; congruence.
-  - rewrite (step_other_tx _ _ _ _ _ _ H Hne). auto.
-Qed.
-
-Lemma written_trans : forall fixed limit st s st' t n e, Inv0 st -> step fixed limit st s = Some st' ->
-  lookup n (written (txs st' t)) = Some e ->
-  lookup n (written (txs st t)) = Some e \/
-  (t = s /\ ((exists w, ph (txs st s) = PCreate w /\ w_ro w = false /\ n = w_n w /\ e = nexte st /\
-                         ((limit =? 0)%Z = false -> lookup n (mmap st') = Some e)) \/
-             (exists w, ph (txs st s) = PWait w e /\ n = w_n w))).
-Proof.
-  intros fixed limit st s st' t n e I H Hl. destruct (Nat.eq_dec t s) as [->|Hne].
-  2:{ rewrite (step_other_tx _ _ _ _ _ _ H Hne) in Hl. auto. }
-  step_field I H. all: commit_setup I.
-  all: simpl in Hl; try rewrite Ct in Hl; rewrite upd_eq in Hl; simpl in Hl; auto.
-  all: try rewrite lookup_set_key in Hl.
-  all: try match type of Hl with (if ?b then _ else _) = _ => destruct b eqn:Eb; [apply Nat.eqb_eq in Eb; injection Hl as Hl; subst|auto] end.
-  all: try (rewrite E3 in Hl; discriminate Hl).
-  all: right; split; auto.
-  all: try (left; eexists; repeat split; eauto; simpl; intros Hz; try (rewrite Hz in *; simpl in *; congruence); rewrite lookup_set_key, Nat.eqb_refl; reflexivity).
-  all: try (right; eexists; split; eauto).
-Qed.
-
-Lemma scrapped_new : forall fixed limit st s st' e, Inv0 st -> step fixed limit st s = Some st' ->
-  e_scrapped (elems st e) = false -> e_scrapped (elems st' e) = true ->
-  (exists w c, ph (txs st s) = PIn w c /\ c_e c = e /\ failed (txs st' s) = true) \/
-  (ph (txs st s) = PIdle /\ (exists n, lookup n (written (txs st s)) = Some e) /\
-   done (txs st s) = false /\ done (txs st' s) = true).
-Proof.
-  intros fixed limit st s st' e I H Hf Ht. step_field I H. all: commit_setup I.
-  all: try match goal with |- context [commit_all _ _ _] =>
-         right; split; [reflexivity|]; split;
-         [destruct (Dec e) as [Dd|Dd]; [exact Dd|simpl in Ht; rewrite (C2 _ Dd) in Ht; congruence]|];
-         split; auto; simpl; rewrite upd_eq; reflexivity end.
-  all: simpl in Ht; upd_cases; simpl in Ht; try congruence.
-  all: try (left; do 2 eexists; repeat split; eauto; simpl; rewrite upd_eq; reflexivity).
-  right; split; [reflexivity|]; split;
-         [destruct (Dec e) as [Dd|Dd]; [exact Dd|simpl in Ht; rewrite <- E3 in Ht; rewrite (C2 _ Dd) in Ht; congruence]|].
-  split; auto. simpl. rewrite upd_eq. reflexivity.
-Qed.
-
-Lemma step_I3 : forall fixed limit st s st', Inv0 st -> InvW st -> InvC limit st ->
-  step fixed limit st s = Some st' -> keeps st st' ->
-  (limit =? 0)%Z = false -> forall t n e, lookup n (written (txs st' t)) = Some e ->
-          done (txs st' t) = false -> failed (txs st' t) = false ->
-          e_scrapped (elems st' e) = true \/ lookup n (mmap st') = Some e.
-Proof.
-  intros fixed limit st s st' I W C H Kp Hz t n e Hl Hd Hf.
-  destruct (flags_mono _ _ _ _ _ t H) as [Fd Ff]. specialize (Fd Hd). specialize (Ff Hf).
-  destruct (written_trans _ _ _ _ _ _ _ _ I H Hl) as [Ho|[-> [(w & Hp & Hr & -> & -> & Hreg)|(w & Hp & ->)]]].
-  - destruct (i_I3 _ _ C Hz _ _ _ Ho Fd Ff) as [Hs|Hm]; [left; eapply step_scrapped_mono; eauto|].
-    apply (Kp _ _ Hm). left. destruct (i_c4 _ I _ _ _ Ho Fd) as (X & _). congruence.
-  - right. auto.
-  - destruct (i_P3 _ _ C s w e (or_intror Hp)) as [Hs|Hm]; [left; eapply step_scrapped_mono; eauto|].
-    apply (Kp _ _ Hm). left. destruct (i_c1 _ I _ _ _ Hp) as (X & _). congruence.
-Qed.
-
-Lemma step_I4 : forall fixed limit st s st', Inv0 st -> InvW st -> InvC limit st ->
-  step fixed limit st s = Some st' -> no_writer_on_scrappedb st (LT s) = true ->
-  forall t n e, lookup n (written (txs st' t)) = Some e ->
-          done (txs st' t) = false -> failed (txs st' t) = false -> e_scrapped (elems st' e) = true ->
-          exists w rl, ph (txs st' t) = PScrap w e rl /\ w_ro w = false.
-Proof.
-  intros fixed limit st s st' I W C H H2 t n e Hl Hd Hf Hs.
-  destruct (flags_mono _ _ _ _ _ t H) as [Fd Ff]. specialize (Fd Hd). specialize (Ff Hf).
-  destruct (e_scrapped (elems st e)) eqn:Hs0.
-  - (* already scrapped *)
-    destruct (written_trans _ _ _ _ _ _ _ _ I H Hl) as [Ho|[-> [(w & Hp & Hr & -> & -> & Hreg)|(w & Hp & ->)]]].
-    + destruct (i_I4 _ _ C _ _ _ Ho Fd Ff Hs0) as (w & rl & Hp & Hr).
-      destruct (Nat.eq_dec t s) as [->|Hne].
-      * exfalso. simpl in H2. rewrite Hp, Hr, Hs0 in H2. discriminate.
-      * rewrite (step_other_tx _ _ _ _ _ _ H Hne). eauto.
-    + rewrite (i_a0 _ I) in Hs0 by lia. discriminate.
-    + destruct (i_c1 _ I _ _ _ Hp) as (_ & _ & Hr).
-      revert Hs. clear Hl. step_field I H. all: intros _; simpl; rewrite upd_eq; simpl; try discriminate Hp; try (injection Hp as Hp1 Hp2; subst); eauto.
-  - (* scrapped by this step *)
-    exfalso. destruct (scrapped_new _ _ _ _ _ _ I H Hs0 Hs) as [(w & c & Hp & <- & Hfs)|(Hp & (n' & Hw) & Hds & Hds')].
-    + destruct (Nat.eq_dec t s) as [->|Hne]; [congruence|].
-      rewrite (step_other_tx _ _ _ _ _ _ H Hne) in Hl.
-      destruct (i_c4 _ I _ _ _ Hl Fd) as (X & Y).
-      apply Hne. symmetry. eapply (excl_core limit st t s w c); eauto. rewrite Hp. reflexivity.
-    + destruct (Nat.eq_dec t s) as [->|Hne]; [congruence|].
-      rewrite (step_other_tx _ _ _ _ _ _ H Hne) in Hl.
-      destruct (i_c4 _ I _ _ _ Hl Fd) as (X & _). destruct (i_c4 _ I _ _ _ Hw Hds) as (X' & _). congruence.
-Qed.
-
-Lemma map_empty_of_sub : forall (m m' : list (nat * nat)),
-  (forall n e, lookup n m' = Some e -> lookup n m = Some e) -> m = [] -> m' = [].
-Proof.
-  intros m m' Hsub ->. destruct m' as [|[k v] r]; auto.
-  specialize (Hsub k v). unfold lookup in Hsub. rewrite Nat.eqb_refl in Hsub. specialize (Hsub eq_refl). discriminate.
-Qed.
-
-Lemma step_map_sub_or_new : forall fixed limit st s st' n e, step fixed limit st s = Some st' ->
-  lookup n (mmap st') = Some e ->
-  lookup n (mmap st) = Some e \/ ((limit =? 0)%Z = false /\ exists w, ph (txs st s) = PCreate w /\ n = w_n w /\ e = nexte st).
-Proof.
-  intros fixed limit st s st' n e H Hl. break_step H.
-  all: simpl in Hl; try (apply commit_all_map_sub in Hl); map_hyp Hl; auto.
-  all: try match type of Hl with (if ?b then _ else _) = _ => destruct b eqn:Eb; [apply Nat.eqb_eq in Eb; injection Hl as Hl; subst|auto] end.
-  all: right; split; [destruct (limit =? 0)%Z; simpl in *; congruence|eauto].
-Qed.
-
-Lemma step_Z : forall fixed limit st s st', InvC limit st -> step fixed limit st s = Some st' ->
-  (limit =? 0)%Z = true -> mmap st' = [].
-Proof.
-  intros fixed limit st s st' C H Hz. apply (map_empty_of_sub (mmap st)); [|apply (i_Z _ _ C Hz)].
-  intros n e Hl. destruct (step_map_sub_or_new _ _ _ _ _ _ _ H Hl) as [?|[X _]]; [auto|congruence].
-Qed.
-
-Lemma step_MM : forall fixed limit st s st', Inv0 st -> InvC limit st -> step fixed limit st s = Some st' ->
-  forall t w, ph (txs st' t) = PCreate w -> lookup (w_n w) (mmap st') = None.
-Proof.
-  intros fixed limit st s st' I C H. step_field I H.
-  all: repeat match goal with Hf : free (mlock _) = true |- _ => apply free_none in Hf end.
-  all: commit_setup I.
-  all: simpl; try rewrite Ct; intros t' w' Hp; upd_cases; simpl in Hp; try discriminate Hp.
-  all: try (pose proof (i_m2 _ I _ _ Hp) as Hm; congruence).
-  all: try (injection Hp as Hp; subst; simpl; auto).
-  all: try (apply (i_MM _ _ C _ _ Hp)).
-Qed.
-
-Lemma step_C : forall fixed limit st s st', Inv0 st -> InvW st -> InvC limit st ->
-  step fixed limit st s = Some st' -> keeps st st' -> no_writer_on_scrappedb st (LT s) = true ->
-  InvC limit st'.
-Proof.
-  intros fixed limit st s st' I W C H Kp H2. constructor.
-  - eapply step_J; eauto.
-  - eapply step_P1; eauto.
-  - eapply step_P2; eauto.
-  - eapply step_P3; eauto.
-  - eapply step_I3; eauto.
-  - eapply step_I4; eauto.
-  - eapply step_Z; eauto.
-  - eapply step_MM; eauto.
-Qed.
-
-Lemma del_C : forall limit st n, Inv0 st -> InvC limit st ->
-  keeps st (set_map st (remove_key n (mmap st))) -> InvC limit (set_map st (remove_key n (mmap st))).
-Proof.
-  intros limit st n I C Kp. constructor; simpl.
-  - apply (i_J _ _ C).
-  - apply (i_P1 _ _ C).
-  - apply (i_P2 _ _ C).
-  - intros t w e Hq. destruct (i_P3 _ _ C _ _ _ Hq) as [Hs|Hl]; auto.
-    apply (Kp _ _ Hl). destruct Hq as [[Hq Hr]|Hq]; [right; eauto|left].
-    destruct (i_c1 _ I _ _ _ Hq) as (X & _). congruence.
-  - intros Hz t n' e Hl Hd Hf. destruct (i_I3 _ _ C Hz _ _ _ Hl Hd Hf) as [Hs|Hm]; auto.
-    apply (Kp _ _ Hm). left. destruct (i_c4 _ I _ _ _ Hl Hd) as (X & _). congruence.
-  - apply (i_I4 _ _ C).
-  - intros Hz. rewrite (i_Z _ _ C Hz). reflexivity.
-  - intros t w Hp. rewrite lookup_remove_key. destruct (Nat.eqb n (w_n w)); auto. apply (i_MM _ _ C _ _ Hp).
-Qed.
+Lemma step_S : forall fixed limit st s st', Inv0 st -> InvW st -> InvS st ->
+  step fixed true limit st s = Some st' -> InvS st'.
+Proof. intros. constructor; [eapply step_J; eauto|eapply step_P2; eauto]. Qed.
 
 Lemma del_W : forall st n, InvW st -> InvW (set_map st (remove_key n (mmap st))).
 Proof. intros st n W. constructor; simpl; apply W. Qed.
+Lemma del_S : forall st n, InvS st -> InvS (set_map st (remove_key n (mmap st))).
+Proof. intros st n C. constructor; simpl; apply C. Qed.
 
 Lemma init_W : forall progs, Forall wf_prog progs -> InvW (init progs).
 Proof.
   intros progs Hwf. constructor; intros t; rewrite init_tx; destruct (nth_error progs t) eqn:E; simpl; auto; try discriminate.
   rewrite Forall_forall in Hwf. apply Hwf. eapply nth_error_In; eauto.
 Qed.
-Lemma init_C : forall limit progs, InvC limit (init progs).
+Lemma init_S : forall progs, InvS (init progs).
 Proof.
-  intros limit progs. constructor; intros; try rewrite init_ph in *; try rewrite init_written in *; simpl in *;
-    try discriminate; auto.
-  destruct H as [[? _]|?]; discriminate.
+  intros progs. constructor; intros; try rewrite init_ph in *; simpl in *; discriminate.
 Qed.
 
-(* all the invariants along a clean run *)
-Lemma run_clean : forall fixed limit ls st, Inv0 st -> InvW st -> InvC limit st ->
-  clean fixed limit ls st ->
-  let st' := run fixed limit ls st in Inv0 st' /\ InvW st' /\ InvC limit st'.
+Lemma next_WS : forall fixed limit st l, Inv0 st -> InvW st -> InvS st ->
+  InvW (next fixed true limit st l) /\ InvS (next fixed true limit st l).
 Proof.
-  induction ls as [|l ls IH]; simpl; intros st I W C Hc; auto.
-  destruct Hc as [[Kp H2] Hc].
-  assert (X : Inv0 (next fixed limit st l) /\ InvW (next fixed limit st l) /\ InvC limit (next fixed limit st l)).
-  { split; [now apply next_Inv0|]. unfold next in *. destruct (lstep fixed limit st l) eqn:E; auto.
-    destruct l as [t|n]; simpl in E.
-    - split; [eapply step_W; eauto|eapply step_C; eauto].
-    - destruct (free (mlock st)); [|discriminate]. injection E as <-. split; [now apply del_W|now apply del_C]. }
-  destruct X as (I' & W' & C'). apply IH; auto.
+  intros fixed limit st l I W C. unfold next. destruct (lstep fixed true limit st l) eqn:E; auto.
+  destruct l as [t|n]; simpl in E.
+  - split; [eapply step_W; eauto|eapply step_S; eauto].
+  - destruct (free (mlock st)); [|discriminate]. injection E as <-. split; [now apply del_W|now apply del_S].
+Qed.
+Lemma run_safe : forall fixed limit ls st, Inv0 st -> InvW st -> InvS st ->
+  let st' := run fixed true limit ls st in Inv0 st' /\ InvW st' /\ InvS st'.
+Proof.
+  induction ls as [|l ls IH]; simpl; intros st I W C; auto.
+  destruct (next_WS fixed limit st l I W C) as [W' C']. apply IH; auto. now apply next_Inv0.
 Qed.
 
 (* ------------------------------------------------------------------ *)
 (* exclusion                                                           *)
 (* ------------------------------------------------------------------ *)
-Lemma excl_of_inv : forall limit st, Inv0 st -> InvC limit st -> excl st.
+Lemma excl_of_inv : forall st, Inv0 st -> InvS st -> excl st.
 Proof.
-  intros limit st I C. repeat split.
+  intros st I C. repeat split.
   - intros t e [Hw Hh]. apply (i_c3 _ I _ Hh).
-  - intros t t' e [Hw Hh] (w & c & Hp & <-). eapply (excl_core limit st t t' w c); eauto. rewrite Hp. reflexivity.
+  - intros t t' e [Hw Hh] (w & c & Hp & <-). eapply (excl_core st t t' w c); eauto. rewrite Hp. reflexivity.
   - intros t t' e (w & c & Hp & <- & Hro) (w' & c' & Hp' & He).
     assert (Hu : use_of (ph (txs st t)) = Some (w, c)) by (rewrite Hp; reflexivity).
     assert (Hu' : use_of (ph (txs st t')) = Some (w', c')) by (rewrite Hp'; reflexivity).
-    destruct (i_a3 _ I _ _ _ Hu) as (_ & _ & Ho). destruct (i_a3 _ I _ _ _ Hu') as (_ & _ & Ho').
+    destruct (i_a3 _ I _ _ _ Hu) as (_ & _ & Ho & Hof). destruct (i_a3 _ I _ _ _ Hu') as (_ & _ & Ho' & Hof').
     destruct (c_sh c) eqn:Hs.
-    + destruct (i_J _ _ C _ _ _ Hu Hs) as [Hr|[Hw Hh]].
+    + destruct (i_J _ C _ _ _ Hu Hs) as [Hr|[Hw Hh]].
       * rewrite (i_e1 _ I _ _ _ Hu Hro) in Hr. discriminate.
-      * rewrite <- He in Hw, Hh. eapply (excl_core limit st t t' w' c'); eauto.
-    + rewrite He in Ho'. destruct (c_sh c'); congruence.
+      * rewrite <- He in Hw, Hh. eapply (excl_core st t t' w' c'); eauto.
+    + specialize (Hof eq_refl). rewrite He in Ho'. destruct Ho'; congruence.
   - intros t w c Hp Hs (n & Hl).
     assert (Hu : use_of (ph (txs st t)) = Some (w, c)) by (rewrite Hp; reflexivity).
-    destruct (i_a3 _ I _ _ _ Hu) as (_ & _ & Ho). rewrite Hs in Ho.
+    destruct (i_a3 _ I _ _ _ Hu) as (_ & _ & _ & Ho). specialize (Ho Hs).
     destruct (i_a1 _ I _ _ Hl) as (_ & _ & Ho'). congruence.
 Qed.
 
 Lemma thm_exclusion : forall fixed limit progs ls, Forall wf_prog progs ->
-  clean fixed limit ls (init progs) -> excl (run fixed limit ls (init progs)).
+  excl (run fixed true limit ls (init progs)).
 Proof.
-  intros fixed limit progs ls Hwf Hc.
-  destruct (run_clean fixed limit ls (init progs) (init_Inv0 progs) (init_W progs Hwf) (init_C limit progs) Hc) as (I & W & C).
+  intros fixed limit progs ls Hwf.
+  destruct (run_safe fixed limit ls (init progs) (init_Inv0 progs) (init_W progs Hwf) (init_S progs)) as (I & W & C).
   eapply excl_of_inv; eauto.
 Qed.
+
 
 (* ------------------------------------------------------------------ *)
 (* coherence                                                           *)
@@ -414,147 +182,159 @@ Proof. intros. unfold has_key, lookup. fold lookup. destruct (Nat.eqb k n); auto
 Lemma lookup_cons : forall n k v m, lookup n ((k, v) :: m) = if Nat.eqb k n then Some v else lookup n m.
 Proof. reflexivity. Qed.
 
-Lemma commit_ok_view : forall W st,
-  NoDup (map fst W) -> (forall n e, In (n, e) W -> e_name (elems st e) = n) ->
-  (forall n, committed (commit_all false st W) n = if has_key n W then S (committed st n) else committed st n) /\
-  (forall n e, lookup n W = Some e -> e_built (elems (commit_all false st W) e) = S (committed st n)).
+Lemma commit_all_cons : forall safe bad st ne W,
+  commit_all safe bad st (ne :: W) = commit_all safe bad (commit_one safe bad st ne) W.
+Proof. reflexivity. Qed.
+
+Lemma commit_bad_view : forall safe W st,
+  (forall n, committed (commit_all safe true st W) n = committed st n) /\
+  (forall e, e_built (elems (commit_all safe true st W) e) = e_built (elems st e)) /\
+  (forall e, In e (map snd W) -> e_scrapped (elems (commit_all safe true st W) e) = true).
 Proof.
-  induction W as [|[k x] W IH]; intros st Hnd Hnm.
-  - split; intros; [reflexivity|discriminate].
-  - inversion Hnd as [|? ? Hk Hnd']; subst.
-    set (st2 := commit_one false st (k, x)).
-    assert (E2 : forall y, elems st2 y = if Nat.eqb y x then e_set_writer (e_set_built (elems st x) (S (committed st k))) None false else elems st y).
-    { intros y. unfold st2, commit_one. simpl. unfold upd. destruct (Nat.eqb y x); auto. }
+  induction W as [|[k x] W IH]; intros st.
+  - repeat split; auto; intros e [].
+  - rewrite commit_all_cons. destruct (IH (commit_one safe true st (k, x))) as (I1 & I2 & I3).
+    assert (E2 : forall y, elems (commit_one safe true st (k, x)) y =
+                 if Nat.eqb y x then e_set_writer (e_scrap (elems st x)) None false else elems st y).
+    { intros y. unfold commit_one. simpl. unfold upd. destruct (Nat.eqb y x); auto. }
+    repeat split.
+    + intros n. rewrite I1. unfold commit_one. destruct safe; reflexivity.
+    + intros e. rewrite I2, E2. destruct (Nat.eqb_spec e x); subst; reflexivity.
+    + intros e [Hin|Hin]; [|auto]. simpl in Hin. subst e.
+      destruct (commit_all_elems safe true W (commit_one safe true st (k, x)) x) as ((_ & _ & _ & _ & Hm) & _).
+      apply Hm. rewrite E2, Nat.eqb_refl. reflexivity.
+Qed.
+
+Lemma commit_ok_view : forall W st,
+  NoDup (map fst W) ->
+  (forall n e, In (n, e) W -> e_name (elems st e) = n) ->
+  (forall k c, lookup k (mmap st) = Some c -> e_name (elems st c) = k) ->
+  (forall n, committed (commit_all true false st W) n = if has_key n W then S (committed st n) else committed st n) /\
+  (forall n e, lookup n W = Some e -> lookup n (mmap st) = Some e ->
+               e_built (elems (commit_all true false st W) e) = S (committed st n)) /\
+  (forall n e c, lookup n W = Some e -> lookup n (mmap st) = Some c -> c <> e ->
+               e_scrapped (elems (commit_all true false st W) c) = true) /\
+  (forall e, ~ In e (map snd W) -> e_built (elems (commit_all true false st W) e) = e_built (elems st e)).
+Proof.
+  induction W as [|[k x] W IH]; intros st Hnd Hnm Hreg.
+  - repeat split; intros; auto; discriminate.
+  - inversion Hnd as [|? ? Hk Hnd']; subst. rewrite commit_all_cons.
+    set (st2 := commit_one true false st (k, x)).
+    assert (Hsh : forall y, same_shape (elems st y) (elems st2 y)) by (intros y; apply commit_one_elems).
     assert (C2 : forall n, committed st2 n = if Nat.eqb n k then S (committed st k) else committed st n).
-    { intros n. unfold st2, commit_one. simpl. unfold upd. destruct (Nat.eqb n k); auto. }
+    { intros n. unfold st2, commit_one. destruct (lookup k (mmap st)) as [cur|]; [destruct (Nat.eqb cur x)|];
+        simpl; unfold upd; destruct (Nat.eqb n k); auto. }
+    assert (M2 : forall n, n <> k -> lookup n (mmap st2) = lookup n (mmap st)).
+    { intros n Hn. unfold st2, commit_one. destruct (lookup k (mmap st)) as [cur|]; [destruct (Nat.eqb cur x)|]; simpl; auto.
+      rewrite lookup_remove_key. destruct (Nat.eqb_spec k n); congruence. }
+    assert (Msub : forall n c, lookup n (mmap st2) = Some c -> lookup n (mmap st) = Some c).
+    { intros n c H. change st2 with (commit_all true false st [(k, x)]) in H. eapply commit_all_map_sub; eauto. }
+    assert (B2 : forall y, y <> x -> e_built (elems st2 y) = e_built (elems st y)).
+    { intros y Hy. unfold st2, commit_one. destruct (lookup k (mmap st)) as [cur|]; [destruct (Nat.eqb cur x)|];
+        simpl; unfold upd;
+        repeat match goal with |- context [Nat.eqb ?a ?b] => destruct (Nat.eqb_spec a b); subst end; simpl; auto; congruence. }
+    assert (Bx : lookup k (mmap st) = Some x -> e_built (elems st2 x) = S (committed st k)).
+    { intros Hl. unfold st2, commit_one. rewrite Hl, Nat.eqb_refl. simpl. rewrite upd_eq. reflexivity. }
+    assert (Sx : forall c, lookup k (mmap st) = Some c -> c <> x -> e_scrapped (elems st2 c) = true).
+    { intros c Hl Hc. unfold st2, commit_one. rewrite Hl. destruct (Nat.eqb_spec c x); [congruence|].
+      simpl. rewrite upd_eq. reflexivity. }
     assert (Hnm2 : forall n e, In (n, e) W -> e_name (elems st2 e) = n).
-    { intros n e Hin. rewrite E2. destruct (Nat.eqb_spec e x); subst; simpl; apply Hnm; simpl; auto. }
-    destruct (IH st2 Hnd' Hnm2) as [IH1 IH2].
+    { intros n e Hin. destruct (Hsh e) as (a & _). rewrite a. apply Hnm. simpl; auto. }
+    assert (Hreg2 : forall k' c, lookup k' (mmap st2) = Some c -> e_name (elems st2 c) = k').
+    { intros k' c H. destruct (Hsh c) as (a & _). rewrite a. apply Hreg. auto. }
+    destruct (IH st2 Hnd' Hnm2 Hreg2) as (IH1 & IH2 & IH3 & IH4).
     assert (HkW : has_key k W = false).
     { destruct (has_key k W) eqn:Hh; auto. apply has_key_lookup in Hh. destruct Hh as [e He].
       exfalso. apply Hk. apply in_map_iff. exists (k, e). split; auto. now apply lookup_In. }
-    change (commit_all false st ((k, x) :: W)) with (commit_all false st2 W).
-    split.
+    assert (HxW : ~ In x (map snd W)).
+    { intros Hin. apply in_map_iff in Hin. destruct Hin as ([n' x'] & Hx & Hin). simpl in Hx. subst x'.
+      assert (n' = k). { rewrite <- (Hnm n' x) by (simpl; auto). apply Hnm. simpl; auto. }
+      subst. apply Hk. apply in_map_iff. exists (k, x). auto. }
+    repeat split.
     + intros n. rewrite IH1, has_key_cons, C2. destruct (Nat.eqb_spec k n); subst.
       * rewrite HkW, Nat.eqb_refl. reflexivity.
       * simpl. destruct (Nat.eqb_spec n k); [congruence|]. reflexivity.
-    + intros n e Hl. rewrite lookup_cons in Hl. destruct (Nat.eqb_spec k n); subst.
+    + intros n e Hl Hm. rewrite lookup_cons in Hl. destruct (Nat.eqb_spec k n); subst.
+      * injection Hl as <-. rewrite (IH4 _ HxW). auto.
+      * rewrite (IH2 _ _ Hl); [|rewrite M2; auto]. rewrite C2. destruct (Nat.eqb_spec n k); [congruence|]. reflexivity.
+    + intros n e c Hl Hm Hc. rewrite lookup_cons in Hl. destruct (Nat.eqb_spec k n); subst.
       * injection Hl as <-.
-        destruct (commit_all_elems false W st2 x) as [_ Hsame]. rewrite Hsame.
-        -- rewrite E2, Nat.eqb_refl. reflexivity.
-        -- intros Hin. apply in_map_iff in Hin. destruct Hin as ([n' x'] & Hx & Hin). simpl in Hx. subst x'.
-           assert (n' = n). { rewrite <- (Hnm n' x) by (simpl; auto). apply Hnm. simpl; auto. }
-           subst. apply Hk. apply in_map_iff. exists (n, x). auto.
-      * rewrite (IH2 _ _ Hl), C2. destruct (Nat.eqb_spec n k); [congruence|]. reflexivity.
+        destruct (commit_all_elems true false W st2 c) as ((_ & _ & _ & _ & Hmono) & _). apply Hmono. auto.
+      * apply (IH3 n e c); auto. rewrite M2; auto.
+    + intros e Hn. simpl in Hn. rewrite IH4 by tauto. apply B2. intros ->. tauto.
 Qed.
 
-Lemma step_coh : forall fixed limit st s st', Inv0 st -> InvW st -> InvC limit st -> coherent st ->
-  step fixed limit st s = Some st' -> coherent st'.
+Lemma step_coh : forall fixed limit st s st', Inv0 st -> coherent st ->
+  step fixed true limit st s = Some st' -> coherent st'.
 Proof.
-  intros fixed limit st s st' I W C Co H. unfold coherent. step_field I H. all: commit_setup I.
+  intros fixed limit st s st' I Co H. unfold coherent. step_field I H. all: commit_setup I.
   all: simpl; intros n' e' Hl Hs Hw; try (apply commit_all_map_sub in Hl); map_hyp Hl.
   all: try match type of Hl with (if ?b then _ else _) = _ => destruct b eqn:Eb; [apply Nat.eqb_eq in Eb; injection Hl as Hl; subst|] end.
   all: try (destruct (i_a1 _ I _ _ Hl) as (Ha & Hb & Hc)).
   all: simpl in *; upd_cases; simpl in *; try discriminate; try (exfalso; lia); try (apply Co; auto; fail).
   all: try reflexivity.
   (* Commit with written caches *)
+  set (W := written (txs st s)) in *.
+  assert (HinW : forall e, In e (map snd W) <-> exists n, lookup n W = Some e).
+  { intros e. split; [intros Hin; apply In_snd_lookup; auto; apply (i_nd _ I)|intros [n Hn]; eapply lookup_In_snd; eauto]. }
   destruct (failed (txs st s) || fail) eqn:Hbad.
-  - rewrite commit_all_committed_bad. destruct (Dec e') as [Dd|Dd].
-    + destruct (commit_view st s true I) as (V1 & _ & _). destruct (V1 _ Dd) as (_ & _ & _ & _ & _ & _ & X).
-      simpl in X. congruence.
-    + rewrite (C2 _ Dd) in *. apply Co; auto.
-  - apply orb_false_iff in Hbad. destruct Hbad as [Hfs _].
-    destruct (commit_ok_view (written (txs st s)) st (i_nd _ I s)) as [K1 K2].
+  - destruct (commit_bad_view true W st) as (B1 & B2 & B3). rewrite B1, B2.
+    destruct (Dec e') as [Dd|Dd].
+    + rewrite B3 in Hs by (apply HinW; auto). discriminate.
+    + destruct (C2 _ Dd) as (Cw & Ch). rewrite Cw in Hw. apply Co; auto.
+      destruct (e_scrapped (elems st e')) eqn:Hs0; auto.
+      destruct (commit_all_elems true true W st e') as ((_ & _ & _ & _ & Hm) & _). rewrite Hm in Hs; auto.
+  - destruct (commit_ok_view W st (i_nd _ I s)) as (K1 & K2 & K3 & K4).
     { intros n e Hin. apply (In_lookup _ _ _ (i_nd _ I s)) in Hin. now destruct (i_a4 _ I _ _ _ Hin) as (_ & X & _). }
+    { intros k c Hk. now destruct (i_a1 _ I _ _ Hk) as (_ & X & _). }
     rewrite K1. destruct (Dec e') as [[n Dd]|Dd].
     + assert (n = n') by (destruct (i_a4 _ I _ _ _ Dd) as (_ & X & _); congruence). subst n.
-      rewrite (K2 _ _ Dd). unfold has_key. rewrite Dd. reflexivity.
-    + rewrite (C2 _ Dd) in *.
-      destruct (has_key n' (written (txs st s))) eqn:Hk; [|apply Co; auto].
-      exfalso. apply has_key_lookup in Hk. destruct Hk as [ew Hk].
-      destruct (limit =? 0)%Z eqn:Hz.
-      * rewrite (i_Z _ _ C Hz) in Hl. discriminate.
-      * destruct (i_I3 _ _ C Hz _ _ _ Hk E2 Hfs) as [Hsc|Hm].
-        -- destruct (i_I4 _ _ C _ _ _ Hk E2 Hfs Hsc) as (w & rl & Hp & _). congruence.
-        -- apply (Dd n'). congruence.
+      rewrite (K2 _ _ Dd Hl). unfold has_key. rewrite Dd. reflexivity.
+    + destruct (has_key n' W) eqn:Hk.
+      * exfalso. apply has_key_lookup in Hk. destruct Hk as [ew Hk].
+        assert (Hne : e' <> ew) by (intros ->; apply (Dd n'); auto).
+        rewrite (K3 _ _ _ Hk Hl Hne) in Hs. discriminate.
+      * rewrite K4 by (intros Hin; apply HinW in Hin; destruct Hin as [n Hn]; apply (Dd n); auto).
+        destruct (C2 _ Dd) as (Cw & Ch). rewrite Cw in Hw. apply Co; auto.
+        destruct (e_scrapped (elems st e')) eqn:Hs0; auto.
+        destruct (commit_all_elems true false W st e') as ((_ & _ & _ & _ & Hm) & _). rewrite Hm in Hs; auto.
 Qed.
 
-Lemma run_clean_coh : forall fixed limit ls st, Inv0 st -> InvW st -> InvC limit st -> coherent st ->
-  clean fixed limit ls st -> coherent (run fixed limit ls st).
+Lemma run_coh : forall fixed limit ls st, Inv0 st -> coherent st -> coherent (run fixed true limit ls st).
 Proof.
-  induction ls as [|l ls IH]; simpl; intros st I W C Co Hc; auto.
-  destruct Hc as [Hc1 Hc].
-  destruct (run_clean fixed limit [l] st I W C (conj Hc1 Logic.I)) as (I' & W' & C'). simpl in I', W', C'.
-  apply IH; auto.
-  unfold next in *. destruct (lstep fixed limit st l) eqn:E; auto.
+  induction ls as [|l ls IH]; simpl; intros st I Co; auto.
+  apply IH; [now apply next_Inv0|].
+  unfold next. destruct (lstep fixed true limit st l) eqn:E; auto.
   destruct l as [t|n]; simpl in E.
   - eapply (step_coh fixed limit st t s); eauto.
   - destruct (free (mlock st)); [|discriminate]. injection E as <-.
     intros n' e Hl. simpl in *. apply lookup_remove_some in Hl. destruct Hl as [Hl _]. now apply Co.
 Qed.
 
-Lemma thm_coherent : forall fixed limit progs ls, Forall wf_prog progs ->
-  clean fixed limit ls (init progs) -> coherent (run fixed limit ls (init progs)).
+Lemma thm_coherent : forall fixed limit progs ls, coherent (run fixed true limit ls (init progs)).
 Proof.
-  intros fixed limit progs ls Hwf Hc.
-  apply run_clean_coh; auto using init_Inv0, init_W, init_C.
+  intros fixed limit progs ls. apply run_coh; [apply init_Inv0|].
   intros n e Hl. simpl in Hl. discriminate.
 Qed.
 
-(* ------------------------------------------------------------------ *)
-(* the boolean cleanliness check is sound (used for the Examples)       *)
-(* ------------------------------------------------------------------ *)
-Definition inert_beyond (ntx : nat) (st : state) : Prop :=
-  forall t, ntx <= t -> ph (txs st t) = PIdle /\ prog (txs st t) = [].
 
-Lemma keepsb_sound : forall ntx st st', inert_beyond ntx st -> keepsb ntx st st' = true -> keeps st st'.
+Lemma step_other_tx : forall fixed safe limit st s st' tq, step fixed safe limit st s = Some st' -> tq <> s ->
+  txs st' tq = txs st tq.
 Proof.
-  intros ntx st st' Hin Hk n e Hl Hpr. unfold keepsb in Hk. rewrite forallb_forall in Hk.
-  specialize (Hk (n, e) (lookup_In _ _ _ Hl)). simpl in Hk.
-  assert (Hp : protectedb ntx st e = true).
-  { unfold protectedb. destruct Hpr as [Hw|(t & w & Hp & Hr)].
-    - destruct (e_writer (elems st e)); [reflexivity|congruence].
-    - apply orb_true_iff. right. apply existsb_exists. exists t. split.
-      + apply in_seq. split; [lia|]. simpl. destruct (le_lt_dec ntx t) as [Hle|]; auto.
-        destruct (Hin t Hle) as [X _]. congruence.
-      + rewrite Hp, Nat.eqb_refl, Hr. reflexivity. }
-  rewrite Hp in Hk. simpl in Hk. apply orb_true_iff in Hk. destruct Hk as [Hk|Hk]; auto.
-  right. destruct (lookup n (mmap st')) as [e'|]; [|discriminate]. apply Nat.eqb_eq in Hk. congruence.
+  intros fixed safe limit st s st' tq H Hne. break_step H.
+  all: simpl; try (destruct (commit_all_frame safe (failed (txs st s) || fail) (p :: l0) st) as (_ & _ & _ & Ft); rewrite Ft).
+  all: now rewrite upd_neq.
 Qed.
 
-Lemma inert_next : forall ntx fixed limit st l, inert_beyond ntx st -> inert_beyond ntx (next fixed limit st l).
-Proof.
-  intros ntx fixed limit st l Hin. unfold next. destruct (lstep fixed limit st l) eqn:E; auto.
-  destruct l as [t|n]; simpl in E.
-  - intros t' Hle. destruct (Nat.eq_dec t' t) as [->|Hne].
-    + destruct (Hin t Hle) as [Hp Hpr]. unfold step in E. rewrite Hp, Hpr in E. discriminate.
-    + rewrite (step_other_tx _ _ _ _ _ _ E Hne). auto.
-  - destruct (free (mlock st)); [|discriminate]. injection E as <-. exact Hin.
-Qed.
 
-Lemma cleanb_sound : forall ntx fixed limit ls st, inert_beyond ntx st ->
-  cleanb ntx fixed limit ls st = true -> clean fixed limit ls st.
+Lemma thm_readers_never_wait : forall fixed safe limit st t,
+  reading (ph (txs st t)) = true -> mlock st = None -> exists st', step fixed safe limit st t = Some st'.
 Proof.
-  induction ls as [|l ls IH]; simpl; intros st Hin Hc; auto.
-  apply andb_true_iff in Hc. destruct Hc as [Hc1 Hc2]. unfold clean_atb in Hc1.
-  apply andb_true_iff in Hc1. destruct Hc1 as [Hk H2]. split.
-  - split; [eapply keepsb_sound; eauto|exact H2].
-  - apply IH; auto. now apply inert_next.
-Qed.
-
-Lemma init_inert : forall progs, inert_beyond (length progs) (init progs).
-Proof.
-  intros progs t Hle. rewrite init_tx. assert (H : nth_error progs t = None) by (apply nth_error_None; exact Hle).
-  rewrite H. split; reflexivity.
-Qed.
-
-Lemma thm_readers_never_wait : forall fixed limit st t,
-  reading (ph (txs st t)) = true -> mlock st = None -> exists st', step fixed limit st t = Some st'.
-Proof.
-  intros fixed limit st t Hr Hm.
+  intros fixed safe limit st t Hr Hm.
   assert (Hfree : free (mlock st) = true) by (rewrite Hm; reflexivity).
   destruct (ph (txs st t)) eqn:Hp; simpl in Hr; try discriminate Hr; enabled Hp.
 Qed.
+
 
 (* ------------------------------------------------------------------ *)
 (* the hypothesis of the progress theorem is satisfiable: if all transactions *)
@@ -567,10 +347,10 @@ Definition InvR (R : tid -> Prop) (st : state) : Prop :=
 Lemma ro_tl : forall p, ro_prog p = true -> ro_prog (tl p) = true.
 Proof. destruct p; simpl; auto. intros H. apply andb_true_iff in H. tauto. Qed.
 
-Lemma step_R : forall R fixed limit st s st', Inv0 st -> InvR R st -> step fixed limit st s = Some st' -> InvR R st'.
+Lemma step_R : forall R fixed safe limit st s st', Inv0 st -> InvR R st -> step fixed safe limit st s = Some st' -> InvR R st'.
 Proof.
-  intros R fixed limit st s st' I IR H t Rt. destruct (IR t Rt) as (Hp & Hw & Hc).
-  destruct (Nat.eq_dec t s) as [->|Hne]; [|rewrite (step_other_tx _ _ _ _ _ _ H Hne); auto].
+  intros R fixed safe limit st s st' I IR H t Rt. destruct (IR t Rt) as (Hp & Hw & Hc).
+  destruct (Nat.eq_dec t s) as [->|Hne]; [|rewrite (step_other_tx _ _ _ _ _ _ _ H Hne); auto].
   step_field I H. all: commit_setup I.
   all: simpl; try rewrite Ct; rewrite upd_eq; simpl in *.
   all: try (apply andb_true_iff in Hp; destruct Hp as [Hp1 Hp2]).
@@ -580,9 +360,9 @@ Proof.
   all: try (apply andb_true_iff; auto).
 Qed.
 
-Lemma next_R : forall R fixed limit st l, Inv0 st -> InvR R st -> InvR R (next fixed limit st l).
+Lemma next_R : forall R fixed safe limit st l, Inv0 st -> InvR R st -> InvR R (next fixed safe limit st l).
 Proof.
-  intros R fixed limit st l I IR. unfold next. destruct (lstep fixed limit st l) eqn:E; auto.
+  intros R fixed safe limit st l I IR. unfold next. destruct (lstep fixed safe limit st l) eqn:E; auto.
   destruct l as [t|n]; simpl in E.
   - eapply step_R; eauto.
   - destruct (free (mlock st)); [|discriminate]. injection E as <-. exact IR.
@@ -599,20 +379,20 @@ Proof.
   rewrite (X t A), (X t' A'). reflexivity.
 Qed.
 
-Lemma always_disjoint_single_writer : forall R w0 limit ls st, Inv0 st -> InvR R st ->
-  (forall t, t <> w0 -> R t) -> always disjoint_writers true limit ls st.
+Lemma always_disjoint_single_writer : forall R w0 safe limit ls st, Inv0 st -> InvR R st ->
+  (forall t, t <> w0 -> R t) -> always disjoint_writers true safe limit ls st.
 Proof.
   induction ls as [|l ls IH]; simpl; intros st I IR Hall.
   - eapply R_disjoint; eauto.
   - split; [eapply R_disjoint; eauto|]. apply IH; auto using next_Inv0, next_R.
 Qed.
 
-Lemma thm_progress_single_writer : forall limit progs ls w0,
+Lemma thm_progress_single_writer : forall safe limit progs ls w0,
   (forall t p, t <> w0 -> nth_error progs t = Some p -> ro_prog p = true) ->
-  let st := run true limit ls (init progs) in
-  (exists t, ~ finished (txs st t)) -> exists t st', step true limit st t = Some st'.
+  let st := run true safe limit ls (init progs) in
+  (exists t, ~ finished (txs st t)) -> exists t st', step true safe limit st t = Some st'.
 Proof.
-  intros limit progs ls w0 Hro st Hex. apply thm_progress; auto.
+  intros safe limit progs ls w0 Hro st Hex. apply thm_progress; auto.
   apply (always_disjoint_single_writer (fun t => t <> w0) w0); auto using init_Inv0.
   intros t Ht. rewrite init_tx. destruct (nth_error progs t) eqn:E; simpl; auto.
   repeat split; auto. eapply Hro; eauto.
